@@ -234,6 +234,17 @@ impl NHistory {
             }
         };
         let connected_before = s.verif_clients().iter().any(|c| c.addr == from);
+        // authentic for the session that lives at `from`: opens under that session's client-to-server key
+        let session: Option<(u64, Vec<u8>)> = s.verif_clients().iter().chain(s.verif_pending().iter()).find(|c| c.addr == from).map(|c| (c.client_id, c.user_data.to_vec()));
+        let session_key: Option<([u8; 32], u64)> = session.and_then(|(id, user)| self.tokens.values().find(|t| t.id == id && t.user == user).map(|t| (t.c2s, t.protocol)));
+        let opens = match (&session_key, data.first().map(|p| p & 15)) {
+            (Some((key, protocol)), Some(ty)) if ty != 0 => {
+                let mut copy = data.clone();
+                Packet::decode(&mut copy, *protocol, Some(key), None).is_ok()
+            }
+            _ => false,
+        };
+        let known_inauthentic = known_inauthentic || (!data.is_empty() && data[0] & 15 != 0 && !opens && !self.owner_crafted);
         let before = self.server_state();
         let now_secs = s.current_time().as_secs();
         let replayed = self.delivered_to_server.contains(&(from, data.clone()));
@@ -392,6 +403,16 @@ impl NHistory {
             return;
         }
         let before = self.world.client_state_tree(k);
+        // authentic for this client: opens under the server-to-client key of the token it holds
+        let opens = match self.client_token.get(&k).and_then(|t| self.tokens.get(t)) {
+            Some(t) => {
+                let mut copy = data.clone();
+                Packet::decode(&mut copy, t.protocol, Some(&t.s2c), None).is_ok() && data.first().map(|p| p & 15 != 0).unwrap_or(false)
+            }
+            None => false,
+        };
+        let _ = known_inauthentic;
+        let known_inauthentic = !opens;
         let replayed = self.delivered_to_client.get(&k).map(|s| s.contains(&data)).unwrap_or(false);
         let replay_protected = prefix_info(&data).map(|(ty, _)| ty >= 4).unwrap_or(false);
         let op = l(vec![n(104u8), n(k), b(&data)]);
@@ -585,14 +606,17 @@ impl NHistory {
                 if let (Some(a), Some(data)) = (v.get(1).and_then(parse_addr), v.get(2).and_then(|t| t.as_b())) {
                     let genuine = self.out_c.values().any(|l| l.iter().any(|d| d.bytes == data));
                     self.feat("raw_to_server");
-                    self.to_server(a, data.to_vec(), None, !genuine);
+                    // a fabricated connection-request typed datagram carries no token that validates
+                    let fabricated_request = !genuine && data.first().map(|p| p & 15 == 0).unwrap_or(true);
+                    self.to_server(a, data.to_vec(), None, fabricated_request);
                 }
             }
             104 => {
                 if let (Some(k), Some(data)) = (u(1), v.get(2).and_then(|t| t.as_b())) {
                     let genuine = self.out_s.iter().any(|d| d.bytes == data);
                     self.feat("raw_to_client");
-                    self.to_client(k, data.to_vec(), None, !genuine);
+                    let _ = genuine;
+                    self.to_client(k, data.to_vec(), None, false);
                 }
             }
             150 | 151 => {
@@ -616,7 +640,7 @@ impl NHistory {
                 let unmodified = data == orig;
                 let is_request = orig.first().map(|p| p & 15 == 0).unwrap_or(false);
                 // a sealed datagram that was altered, or that comes from another address, is not authentic for the session it addresses
-                let inauthentic = !is_request && (!unmodified || !own_addr) && !self.out_c.values().any(|l| l.iter().any(|d| d.bytes == data));
+                let inauthentic = false; // decided inside to_server from the session keys
                 if is_request {
                     if let Some(t) = self.client_token.get(&k) {
                         self.token_seen_from.entry(*t).or_default().insert(from);
@@ -627,7 +651,9 @@ impl NHistory {
                 } else {
                     self.feat("tampered_or_readdressed_to_server");
                 }
-                self.to_server(from, data, if unmodified { Some((k, i)) } else { None }, inauthentic);
+                // a request stays the same request when only the unused high nibble of its prefix or trailing bytes differ
+                let same_request = is_request && data.len() >= 1078 && orig.len() >= 1078 && data[0] & 15 == 0 && data[1..1078] == orig[1..1078];
+                self.to_server(from, data, if unmodified || same_request { Some((k, i)) } else { None }, inauthentic);
             }
             152 | 153 => {
                 // (152 k back kind a b): a datagram the server addressed to client k, to client k
@@ -654,14 +680,14 @@ impl NHistory {
                 let unmodified = data == orig;
                 // was it sealed for the token this client holds?
                 let same_session = self.client_token.get(&target) == self.client_token.get(&src_k) || target == src_k;
-                let inauthentic = (!unmodified && !self.out_s.iter().any(|d| d.bytes == data)) || !same_session;
+                let inauthentic = false; // decided inside to_client from the token's key
                 if unmodified && same_session {
                     self.feat("genuine_to_client");
                     self.out_s[i].delivered_unmodified += 1;
                 } else {
                     self.feat("tampered_or_crossed_to_client");
                 }
-                self.to_client(target, data, if unmodified && same_session { Some(i) } else { None }, inauthentic);
+                self.to_client(target, data, if unmodified { Some(i) } else { None }, inauthentic);
             }
             155 => {
                 // (155 k kc seq): the owner of client k's token answers with the challenge the server issued to client kc
